@@ -24,7 +24,7 @@ SENTINEL = b"\xa5\x5a\xc3"
 
 def shards(tier, seed):
     n = len(TS.type_space(tier))
-    return list(range(n)) + ["identity"] + [("@", i, "python-O") for i in range(n)] + [("@", "identity", "python-O")] + [("@", i, "debuglog") for i in range(0, n, 7)]
+    return list(range(n)) + ["identity", "fixstr-overlong"] + [("@", i, "python-O") for i in range(n)] + [("@", "identity", "python-O")] + [("@", i, "debuglog") for i in range(0, n, 7)]
 
 
 SERIALS = sorted({0, 1, 0xF, 0x10, 0xABC, 0xABCD, 0xABCDE, 0xABCDEF, 0xABCDEF0, 0x0FFFFFFF, 0x10000000, 0x80000000, 0xFFFFFFFF, 0x00000A0B, 0x0F000000, 0xDEADBEEF})
@@ -35,6 +35,36 @@ def _names_unique(c16, want):
     encoded bytes are compared with the device's only when the names are unambiguous."""
     ven, pt = c16.tables()
     return sum(1 for v in ven.values() if v == want["vendor"]) == 1 and sum(1 for v in pt.values() if v == want["product_type"]) == 1
+
+
+def run_fixstr_overlong(rep, tier):
+    """Fixed-capacity strings given more characters than they hold: the value is cut to the capacity, and what was written decodes to exactly
+    that cut value, alone, from a stream and as a structure member with another member behind it."""
+    import io
+    import pycomm3.cip as C
+    from pycomm3.custom_types import FixedSizeString
+
+    for size, lt, cap in ((84, C.UDINT, 82), (82, C.UDINT, None), (12, C.UDINT, 10), (20, C.UINT, 20), (8, C.USINT, 5), (1, C.UDINT, None), (4, C.UDINT, 1)):
+        F = FixedSizeString(size, lt, cap) if cap is not None else FixedSizeString(size, lt)
+        ml = cap if cap is not None else size
+        S = C.Struct(F("s"), C.UINT("tail"))
+        for extra in (0, 1, 2, 5, size - ml + 1, size + 7, 300):
+            v = "".join(chr(65 + i % 26) for i in range(ml + extra))
+            want = v[:ml]
+            e1 = _try(F.encode, v)
+            st = io.BytesIO((bytes(e1[1]) if e1[0] == "ok" else b"") + b"TAIL")
+            d1 = _try(F.decode, st) if e1[0] == "ok" else None
+            e2 = _try(S.encode, {"s": v, "tail": 0xBEEF})
+            d2 = _try(S.decode, bytes(e2[1])) if e2[0] == "ok" else None
+            prob = None
+            if e1[0] != "ok" or d1 != ("ok", want) or st.read() != b"TAIL":
+                prob = ("alone", f"decode(encode({len(v)} characters)) -> {d1!r:.80} (encode {e1!r:.60}), expected the first {ml} characters and the stream left behind the value")
+            elif e2[0] != "ok" or d2 != ("ok", {"s": want, "tail": 0xBEEF}):
+                prob = ("member", f"as a structure member in front of a UINT: {d2!r:.100}, expected {{'s': first {ml} characters, 'tail': 48879}}")
+            rep.case(("fixstr-overlong", size, lt.__name__, cap, extra), outcome="ok:" + ("cut" if extra else "fits") if not prob else prob[0])
+            if prob:
+                rep.violation(f"fixstr-overlong/{prob[0]}", f"FixedSizeString({size}, {lt.__name__}, max_len={cap}) given {len(v)} characters: {prob[1]}", {"clause": "fixstr-overlong", "tier": tier})
+    rep.sample({"type": "FixedSizeString over-long values", "layouts": 7})
 
 
 def run_identity(rep, tier):
@@ -240,6 +270,9 @@ def run_shard(shard, tier, seed):
     if shard == "identity":
         run_identity(rep, tier)
         return rep
+    if shard == "fixstr-overlong":
+        run_fixstr_overlong(rep, tier)
+        return rep
     node = TS.type_space(tier)[shard]
     check_node(rep, node, tier, shard)
     rep.add("types", 1)
@@ -247,6 +280,12 @@ def run_shard(shard, tier, seed):
 
 
 def replay(r):
+    if r.get("clause") == "fixstr-overlong":
+        rep = Report()
+        run_fixstr_overlong(rep, r["tier"])
+        for s, vs in rep.violations.items():
+            print("  violates:", s, "::", vs[0].msg[:300])
+        return not rep.violations
     if r.get("clause") == "identity":
         rep = Report()
         run_identity(rep, r["tier"])
